@@ -683,8 +683,14 @@ def gen_tx(rng, mdib, counter):
         key = rng.choice({'descriptions': ['type_code', 'handle', 'source', 'safety', 'condition_signaled'],
                           'states': ['descriptor_handle', 'state_version', 'activation'],
                           'context_states': ['descriptor_handle', 'handle', 'association']}[table])
+        cls = rng.choice(['multi', 'multi', 'unique', 'oneN'])
+        if cls == 'unique' and key in ('source', 'condition_signaled'):
+            # a unique index over an attribute that descriptor updates change in place and that is not unique: the re-index of
+            # an updated descriptor is then rejected (KeyError in the commit) although the attribute is already written - no table
+            # can list two objects under one unique key, the statement cannot ask for it (model: the object stays `pending`)
+            cls = 'multi'
         return {'tx': 'add_index', 'table': table, 'name': f'verif_idx_{counter[0]}', 'key': key,
-                'cls': rng.choice(['multi', 'multi', 'unique', 'oneN']), 'index_none': rng.random() < 0.5, 'abort': False}
+                'cls': cls, 'index_none': rng.random() < 0.5, 'abort': False}
     if r < 0.15 and metrics:
         tx = {'tx': 'metric', 'handles': some(metrics)}
     elif r < 0.25 and (conds or signals or systems):
